@@ -36,15 +36,17 @@ type Cert struct {
 
 // CertSpec describes one certificate.
 type CertSpec struct {
-	CN        string
-	KeyLabel  string
-	Serial    []byte
-	NotBefore time.Time
-	NotAfter  time.Time
-	CA        bool
-	CRLDP     []string
-	ExtraExt  []pkix.Extension
-	NoSKI     bool
+	CN         string
+	KeyLabel   string
+	Serial     []byte
+	NotBefore  time.Time
+	NotAfter   time.Time
+	CA         bool
+	CRLDP      []string
+	ExtraExt   []pkix.Extension
+	NoSKI      bool
+	SKI        []byte // overrides the key-derived subject key identifier
+	RawSubject []byte // DER subject copied verbatim (exact look-alike of another certificate's name)
 }
 
 func intelName(cn string) pkix.Name {
@@ -70,7 +72,7 @@ var (
 // MakeCert creates (memoised) a certificate for spec issued by issuer (nil = self-signed).
 func MakeCert(spec CertSpec, issuer *Cert) *Cert {
 	key := DeriveKey(spec.KeyLabel)
-	ck := fmt.Sprintf("%s|%s|%x|%d|%d|%v|%v|%d|%v", spec.CN, spec.KeyLabel, spec.Serial, spec.NotBefore.Unix(), spec.NotAfter.Unix(), spec.CA, spec.CRLDP, len(spec.ExtraExt), spec.NoSKI)
+	ck := fmt.Sprintf("%s|%s|%x|%d|%d|%v|%v|%d|%v|%x", spec.CN, spec.KeyLabel, spec.Serial, spec.NotBefore.Unix(), spec.NotAfter.Unix(), spec.CA, spec.CRLDP, len(spec.ExtraExt), spec.NoSKI, append(append([]byte{}, spec.SKI...), spec.RawSubject...))
 	for _, e := range spec.ExtraExt {
 		ck += fmt.Sprintf("|%x", sha256.Sum256(e.Value))
 	}
@@ -95,8 +97,14 @@ func MakeCert(spec CertSpec, issuer *Cert) *Cert {
 		ExtraExtensions:       spec.ExtraExt,
 		SignatureAlgorithm:    x509.ECDSAWithSHA256,
 	}
+	if spec.RawSubject != nil {
+		tmpl.RawSubject = spec.RawSubject
+	}
 	if !spec.NoSKI {
 		tmpl.SubjectKeyId = ski(key)
+		if spec.SKI != nil {
+			tmpl.SubjectKeyId = spec.SKI
+		}
 	}
 	if spec.CA {
 		tmpl.KeyUsage = x509.KeyUsageCertSign | x509.KeyUsageCRLSign
@@ -146,19 +154,21 @@ var Wide = Window{T0.AddDate(-12, 0, 0), T0.AddDate(25, 0, 0)}
 
 // PKISpec parametrises a PKI. Zero windows mean Wide.
 type PKISpec struct {
-	Seed         string
-	IntCN        string // default platform CA
-	RootW        Window
-	IntW         Window
-	TcbW         Window // TCB-Info signer
-	QeW          Window // QE-Identity signer (distinct certificate)
-	RootSerial   []byte
-	IntSerial    []byte
-	TcbSerial    []byte
-	QeSerial     []byte
-	RootCRLDP    []string
-	SameSigner   bool // QE identity signed by the same certificate as TCB info
-	RootKeyLabel string
+	Seed           string
+	IntCN          string // default platform CA
+	RootW          Window
+	IntW           Window
+	TcbW           Window // TCB-Info signer
+	QeW            Window // QE-Identity signer (distinct certificate)
+	RootSerial     []byte
+	IntSerial      []byte
+	TcbSerial      []byte
+	QeSerial       []byte
+	RootCRLDP      []string
+	SameSigner     bool // QE identity signed by the same certificate as TCB info
+	RootKeyLabel   string
+	RootSKI        []byte // subject key identifier copied onto the root (look-alike of another root)
+	RootRawSubject []byte
 }
 
 // PKI is a root / intermediate / TCB-signers hierarchy (leaves are made per platform).
@@ -206,7 +216,7 @@ func NewPKI(spec PKISpec) *PKI {
 	}
 	rw, iw, tw, qw := orWide(spec.RootW), orWide(spec.IntW), orWide(spec.TcbW), orWide(spec.QeW)
 	p := &PKI{Spec: spec}
-	p.Root = MakeCert(CertSpec{CN: CNRoot, KeyLabel: rk, Serial: serialOr(spec.RootSerial, spec.Seed+"/root"), NotBefore: rw.NotBefore, NotAfter: rw.NotAfter, CA: true, CRLDP: spec.RootCRLDP}, nil)
+	p.Root = MakeCert(CertSpec{CN: CNRoot, KeyLabel: rk, Serial: serialOr(spec.RootSerial, spec.Seed+"/root"), NotBefore: rw.NotBefore, NotAfter: rw.NotAfter, CA: true, CRLDP: spec.RootCRLDP, SKI: spec.RootSKI, RawSubject: spec.RootRawSubject}, nil)
 	p.Int = MakeCert(CertSpec{CN: spec.IntCN, KeyLabel: spec.Seed + "/int", Serial: serialOr(spec.IntSerial, spec.Seed+"/int"), NotBefore: iw.NotBefore, NotAfter: iw.NotAfter, CA: true, CRLDP: spec.RootCRLDP}, p.Root)
 	p.TcbSig = MakeCert(CertSpec{CN: CNTcbSigner, KeyLabel: spec.Seed + "/tcb", Serial: serialOr(spec.TcbSerial, spec.Seed+"/tcb"), NotBefore: tw.NotBefore, NotAfter: tw.NotAfter, CRLDP: spec.RootCRLDP}, p.Root)
 	if spec.SameSigner {
